@@ -538,47 +538,48 @@ func (r *Run) CrashRestart(newFS vfs.FS, st *model.State) {
 
 // Run is one history.
 type Run struct {
-	R            *vcommon.Report
-	Prop         string
-	K            Knobs
-	Cfg          Config
-	Case         int
-	rng          *rand.Rand
-	fs           vfs.FS
-	gate         *flushGate
-	gateLeft     int
-	deepest      int      // max number of populated levels below L0 seen at an audit
-	Hook         UnitHook // optional observer of unit issue/ack (crash and fault engines)
-	Dir          string
-	db           *pebble.DB
-	opts         *pebble.Options
-	Ev           *Events
-	M            *model.State
-	hist         []string
-	step         int
-	uniq         int
-	w1set        map[string]int  // number of Sets since last delete-ish
-	w1mg         map[string]bool // merged since last delete-ish
-	iters        []*iterObj
-	snaps        []*snapObj
-	efos         []*efosObj
-	bats         []*batchObj
-	nbat         int
-	prefixes     []string
-	failed       bool
-	shapes       map[string]struct{}
-	nontrivial   bool
-	sawShadow    bool
-	ingestN      int
-	OptsHook     func(o *pebble.Options)
-	dbMu         sync.Mutex
-	soft         map[string]int
-	NoSyncWrites bool
-	Extra        []ExtraStep // additional weighted steps supplied by other engines
-	NoFinalClose bool
-	fileCache    *pebble.FileCache
-	seenTables   map[uint64]bool
-	Stats        map[string]int64
+	R                  *vcommon.Report
+	Prop               string
+	K                  Knobs
+	Cfg                Config
+	Case               int
+	rng                *rand.Rand
+	fs                 vfs.FS
+	gate               *flushGate
+	gateLeft           int
+	lastExLo, lastExHi string   // most recent excise span
+	deepest            int      // max number of populated levels below L0 seen at an audit
+	Hook               UnitHook // optional observer of unit issue/ack (crash and fault engines)
+	Dir                string
+	db                 *pebble.DB
+	opts               *pebble.Options
+	Ev                 *Events
+	M                  *model.State
+	hist               []string
+	step               int
+	uniq               int
+	w1set              map[string]int  // number of Sets since last delete-ish
+	w1mg               map[string]bool // merged since last delete-ish
+	iters              []*iterObj
+	snaps              []*snapObj
+	efos               []*efosObj
+	bats               []*batchObj
+	nbat               int
+	prefixes           []string
+	failed             bool
+	shapes             map[string]struct{}
+	nontrivial         bool
+	sawShadow          bool
+	ingestN            int
+	OptsHook           func(o *pebble.Options)
+	dbMu               sync.Mutex
+	soft               map[string]int
+	NoSyncWrites       bool
+	Extra              []ExtraStep // additional weighted steps supplied by other engines
+	NoFinalClose       bool
+	fileCache          *pebble.FileCache
+	seenTables         map[uint64]bool
+	Stats              map[string]int64
 }
 
 func (r *Run) count(name string, n int64) { r.Stats[name] += n }
